@@ -587,6 +587,14 @@ impl OcflStore for S3OcflStore {
             )));
         }
 
+        if !inventory.continues_history_of(&existing_inventory) {
+            // The object was replaced, e.g. purged and created again, after the version was staged
+            return Err(RocflError::IllegalState(format!(
+                "Cannot create version {} in object {} because the object's history has changed since the version was staged",
+                version_str, inventory.id
+            )));
+        }
+
         let version_dst_path = join(&existing_inventory.object_root, &version_str);
 
         if !self.s3_client.list_dir(&version_dst_path)?.is_empty() {
